@@ -201,6 +201,8 @@ type ev struct {
 	name string
 	fr   string // finish, or a content-carrying chunk (text/start/args) that also closes the completion
 	us   bool   // a content-carrying chunk that also carries the usage object
+	// content: a tool-start chunk whose delta also carries text (kind "textstart": text first, then the call)
+	content string
 }
 
 func (e ev) String() string {
@@ -253,6 +255,10 @@ func sseLine(e ev) string {
 		return chunk(map[string]any{"tool_calls": []any{map[string]any{"index": e.tool, "function": map[string]any{"arguments": e.text}}}}, nil)
 	case "finish":
 		return chunk(map[string]any{}, e.fr)
+	case "usage0": // the standard final chunk of stream_options.include_usage: no choices, only usage
+		return "data: " + j(map[string]any{"id": "c1", "object": "chat.completion.chunk", "model": "m-stream", "choices": []any{}, "usage": map[string]any{"prompt_tokens": 11, "completion_tokens": 7, "total_tokens": 18}}) + "\n\n"
+	case "textstart":
+		return chunk(map[string]any{"content": e.content, "tool_calls": []any{map[string]any{"index": e.tool, "id": e.id, "type": "function", "function": map[string]any{"name": e.name, "arguments": e.text}}}}, nil)
 	case "usage":
 		return "data: " + j(map[string]any{"id": "c1", "object": "chat.completion.chunk", "model": "m-stream", "choices": []any{map[string]any{"index": 0, "delta": map[string]any{}, "finish_reason": nil}}, "usage": map[string]any{"prompt_tokens": 11, "completion_tokens": 7, "total_tokens": 18}}) + "\n\n"
 	case "malformed":
@@ -313,9 +319,17 @@ func expectOf(seq []ev) expect {
 			if e.tool < len(x.calls) {
 				x.calls[e.tool].args += e.text
 			}
+		case "textstart":
+			x.text += e.content
+			if last != "text" {
+				x.blocks = append(x.blocks, "text")
+			}
+			x.calls = append(x.calls, call{e.id, e.name, e.text})
+			x.blocks = append(x.blocks, "tool_use")
+			last = "tool"
 		case "finish":
 			x.stop = e.fr
-		case "usage":
+		case "usage", "usage0":
 			x.in, x.out = 11, 7
 		}
 	}
@@ -733,6 +747,41 @@ func e2() {
 								}
 							}
 							judge("E2", seq, sb.String(), chunk, true, x)
+						}
+						// the same completion as other backends put it on the wire
+						{
+							// (1) usage as the standard final chunk of include_usage: "choices": [] plus usage
+							var s1 []ev
+							for _, e := range seq {
+								if e.kind == "usage" {
+									e.kind = "usage0"
+								}
+								s1 = append(s1, e)
+							}
+							var b1 strings.Builder
+							for _, e := range s1 {
+								b1.WriteString(sseLine(e))
+							}
+							judge("E2-usage-final-chunk", s1, b1.String(), 0, true, x)
+							// (2) "data:" without the optional space after the colon
+							judge("E2-data-no-space", seq, strings.ReplaceAll(sb.String(), "data: ", "data:"), 0, true, x)
+							// (3) the last text fragment and the first tool call in one delta
+							for i := 0; i+1 < len(seq); i++ {
+								if seq[i].kind == "text" && seq[i+1].kind == "start" {
+									var s3 []ev
+									s3 = append(s3, seq[:i]...)
+									m := seq[i+1]
+									m.kind, m.content = "textstart", seq[i].text
+									s3 = append(s3, m)
+									s3 = append(s3, seq[i+2:]...)
+									var b3 strings.Builder
+									for _, e := range s3 {
+										b3.WriteString(sseLine(e))
+									}
+									judge("E2-text-and-call-in-one-delta", s3, b3.String(), 0, true, expectOf(s3))
+									break
+								}
+							}
 						}
 						// malformed line injected at every position
 						for pos := 0; pos <= len(seq); pos++ {
